@@ -407,9 +407,10 @@ def to_int_property_value(value):
 
 
 def write_data(file, tdms_object):
-    if tdms_object.data_type == TimeStamp:
+    if tdms_object.data_type == TimeStamp or (
+            tdms_object.data_type == TdmsTimestamp and tdms_object.data.dtype == np.dtype('O')):
         # Numpy's datetime format isn't compatible with TDMS,
-        # so can't use data.tofile
+        # so can't use data.tofile, and neither can arrays of TdmsTimestamp objects
         write_values(file, tdms_object.data)
     elif tdms_object.data_type == String:
         # Strings are variable size so need to be treated specially
